@@ -400,7 +400,10 @@ class World:
 
     def payload_for(self, url, kind, lc):
         if self.payloads is not None:
-            raw, gz = self.payloads[url]
+            entry = self.payloads[url]
+            if isinstance(entry, dict):          # the bytes served for each answer kind, spelled out
+                return entry[kind]
+            raw, gz = entry
             return payload_bytes(kind, gz, raw)
         return payload_bytes(kind, getattr(lc, "gzip", False))
 
